@@ -280,3 +280,159 @@ func Harness_C05_NumberGlue() {
 	}
 	verifrt.Assert(err == nil && s == "0", "+0 and -0 are written as 0")
 }
+
+// es6Number: ECMAScript Number::toString for the decimal d1...dk x 10^(n-k) (k digits, n = exp+1), ECMA-262 6.1.6.1.20.
+func es6Number(d []byte, exp int) []byte {
+	k, n := len(d), exp+1
+	var out []byte
+	switch {
+	case k <= n && n <= 21:
+		out = append(out, d...)
+		for i := 0; i < n-k; i++ {
+			out = append(out, '0')
+		}
+	case 0 < n && n <= 21:
+		out = append(out, d[:n]...)
+		out = append(out, '.')
+		out = append(out, d[n:]...)
+	case -6 < n && n <= 0:
+		out = append(out, '0', '.')
+		for i := 0; i < -n; i++ {
+			out = append(out, '0')
+		}
+		out = append(out, d...)
+	default:
+		out = append(out, d[0])
+		if k > 1 {
+			out = append(out, '.')
+			out = append(out, d[1:]...)
+		}
+		out = append(out, 'e')
+		e := n - 1
+		if e < 0 {
+			out = append(out, '-')
+			e = -e
+		} else {
+			out = append(out, '+')
+		}
+		var digits []byte
+		for e > 0 {
+			digits = append([]byte{byte('0' + e%10)}, digits...)
+			e /= 10
+		}
+		out = append(out, digits...)
+	}
+	return out
+}
+
+// c05Number: NumberToJSON on the double whose shortest round-trip decimal is d1.d2...dn x 10^exp, for arbitrary digits
+// (d1, dn != 0) and either sign, must be the ECMAScript rendering of those digits: fixed notation for
+// 1e-6 <= |x| < 1e21, exponent notation with an explicit sign and no leading zeros otherwise.
+func c05Number(maxDigits int, exps []int) {
+	n := 1 + verifrt.Choose("digits", maxDigits)
+	d := verifrt.AnyBytes("d", n)
+	for i := range d {
+		verifrt.Assume(d[i] >= '0' && d[i] <= '9')
+	}
+	verifrt.Assume(d[0] != '0' && d[n-1] != '0')
+	exp := exps[verifrt.Choose("exp", len(exps))]
+	x := verifrt.FloatFromDecimal(d, exp)
+	neg := verifrt.AnyBool("negative")
+	if neg {
+		x = -x
+	}
+	got, err := NumberToJSON(x)
+	verifrt.Reach("formatted")
+	want := string(es6Number(d, exp))
+	if neg {
+		want = "-" + want
+	}
+	verifrt.Assert(err == nil && got == want, "a finite number is written in the ECMAScript shortest round-trip format")
+}
+
+// Harness_C05_NumberFormat: 1..15 significant digits; exponents around both notation switches (1e-6, 1e21), around the
+// integer fix-up region (12..21 integer digits), at one/two/three-digit exponents and at the ends of the normal range.
+func Harness_C05_NumberFormat() {
+	c05Number(15, []int{-300, -100, -99, -10, -9, -8, -7, -6, -5, -1, 0, 1, 2, 9, 10, 11, 12, 14, 15, 16, 19, 20, 21, 22, 23, 99, 100, 307})
+}
+
+// HarnessT_C05_NumberFormatAllExponents: every decimal exponent of the normal range -300..307.
+func HarnessT_C05_NumberFormatAllExponents() {
+	var exps []int
+	for e := -300; e <= 307; e++ {
+		exps = append(exps, e)
+	}
+	c05Number(15, exps)
+}
+
+func itoa(v int) []byte {
+	if v == 0 {
+		return []byte{'0'}
+	}
+	var out []byte
+	for v > 0 {
+		out = append([]byte{byte('0' + v%10)}, out...)
+		v /= 10
+	}
+	return out
+}
+
+// c05NumberSpelling: the same number in several surface spellings (the canonical one: fixed point; exponent form with
+// capital E, explicit plus and leading zeros in the exponent; integer mantissa with adjusted exponent; superfluous
+// trailing zeros) inside an array is canonicalized to the ECMAScript rendering.
+func c05NumberSpelling(maxDigits int, exps []int) {
+	n := 1 + verifrt.Choose("digits", maxDigits)
+	d := verifrt.AnyBytes("d", n)
+	for i := range d {
+		verifrt.Assume(d[i] >= '0' && d[i] <= '9')
+	}
+	verifrt.Assume(d[0] != '0' && d[n-1] != '0')
+	exp := exps[verifrt.Choose("exp", len(exps))]
+	canonical := es6Number(d, exp)
+	sign := []byte{}
+	if verifrt.AnyBool("negative") {
+		sign = []byte{'-'}
+	}
+	abs := exp
+	esign := byte('+')
+	if exp < 0 {
+		abs, esign = -exp, '-'
+	}
+	var spelled []byte
+	switch verifrt.Choose("spelling", 4) {
+	case 0:
+		spelled = append(spelled, canonical...)
+	case 1: // d.dddE+00x
+		spelled = append(spelled, d[0])
+		if n > 1 {
+			spelled = append(append(spelled, '.'), d[1:]...)
+		}
+		spelled = append(append(append(spelled, 'E', esign), '0', '0'), itoa(abs)...)
+	case 2: // ddddde(exp-n+1)
+		spelled = append(append(spelled, d...), 'e')
+		e2 := exp - n + 1
+		if e2 < 0 {
+			spelled = append(spelled, '-')
+			e2 = -e2
+		}
+		spelled = append(spelled, itoa(e2)...)
+	default: // d.ddd000e exp
+		spelled = append(append(spelled, d[0], '.'), d[1:]...)
+		spelled = append(append(append(spelled, '0', '0', '0', 'e', esign)), itoa(abs)...)
+	}
+	text := append(append(append([]byte{'['}, sign...), spelled...), ']')
+	out, err := Transform(text)
+	verifrt.Reach("canonicalized")
+	want := string(append(append(append([]byte{'['}, sign...), canonical...), ']'))
+	verifrt.Assert(err == nil && string(out) == want, "every spelling of a number is canonicalized to its ECMAScript rendering (the canonical spelling is a fixed point)")
+}
+
+// Harness_C05_NumberSpelling: 1..6 digits, exponents around the notation switches.
+func Harness_C05_NumberSpelling() {
+	c05NumberSpelling(6, []int{-100, -8, -7, -6, -1, 0, 1, 5, 11, 12, 20, 21, 22, 100})
+}
+
+// HarnessT_C05_NumberSpellingWide: 1..15 digits, more exponents.
+func HarnessT_C05_NumberSpellingWide() {
+	c05NumberSpelling(15, []int{-300, -100, -99, -10, -9, -8, -7, -6, -5, -1, 0, 1, 2, 9, 10, 11, 12, 14, 15, 16, 19, 20, 21, 22, 23, 99, 100, 307})
+}
